@@ -8,13 +8,20 @@ plus the documented meaning (`sat`, `findAllSpec`).  Core Lean only.
 External functions never run inside Lean: a compiled regular expression and a user function are *oracle
 predicates* (`Oracle`), supplied as truth tables per case by the harness.
 
-Two repairs of /repo are mirrored in their repaired form (`Variant.repaired`), the unrepaired behaviour is kept as
-`Variant.unrepaired` for witness theorems:
-* (a) a search with no criteria at all returns every tag *also* with a limit / via the singular methods
-  (`fixes/C10-no-criteria-limit.diff`, element.py:1118);
-* (b) a function given as the name criterion is not called a second time with the prefixed name string
-  (`fixes/C10-name-function-once.diff`, filter.py:519).
-Two known findings are mirrored as the code behaves: `limit=0` and criteria that yield no rule. -/
+Five repairs of /repo are mirrored in their repaired form (`Variant.repaired`); each can be switched off through its
+`Variant` flag, which is how the witness theorems state the unrepaired behaviour:
+* (a) `noCritBranch`: a search with no criteria at all returns every tag *also* with a limit / via the singular
+  methods (`fixes/C10-no-criteria-limit.diff`, element.py `_find_all`);
+* (b) `retryFn = false`: a function given as the name criterion is not called a second time with the prefixed name
+  string (`fixes/C10-name-function-once.diff`, filter.py `matches_tag`);
+* (d) `deadCheck`: a criterion that yields no match rule (an empty list, a list of nested lists) matches nothing
+  also when it is combined with other criteria — `SoupStrainer.matches_nothing`
+  (`fixes/C10-empty-list-combined.diff`, filter.py `__init__`/`matches_tag`/`match`);
+* (e) `attrsDict`: the shortcuts of `_find_all` are taken only when `attrs` is an empty *dict*; a falsy non-dict
+  value ("" / None / False / []) is a restriction on `class` on every path (`fixes/C10-falsy-attrs-ignored.diff`);
+* (f) `joinEmpty`: a multi-valued attribute without values (`class=""` → `[]`) is matched as the empty string, so
+  `class_=True` finds it (`fixes/C10-empty-multivalued-attr.diff`, filter.py `_attribute_match`).
+One known finding is mirrored as the code behaves: `limit=0` (pinned by the repo test `test_find_all_limit`). -/
 namespace BS.Search
 
 /-! ## Trees -/
@@ -225,10 +232,14 @@ def prefixedName (e : Elem) : Option PStr :=
 structure Variant where
   retryFn : Bool        -- unrepaired (b): a name *function* is retried with the prefixed name string
   noCritBranch : Bool   -- repaired (a): `_find_all` has a branch for "no criteria at all" honouring `limit`
+  deadCheck : Bool      -- repaired (d): `SoupStrainer.matches_nothing` is consulted
+  attrsDict : Bool      -- repaired (e): the shortcuts test `isinstance(attrs, dict) and not attrs`, not `not attrs`
+  joinEmpty : Bool      -- repaired (f): the joined-value retry happens for `len(attr_values) != 1`, not `> 1`
   deriving Repr, DecidableEq
 
-def Variant.repaired : Variant := ⟨false, true⟩
-def Variant.unrepaired : Variant := ⟨true, false⟩
+def Variant.repaired : Variant := ⟨false, true, true, true, true⟩
+/-- bs4 4.13.0 as shipped -/
+def Variant.unrepaired : Variant := ⟨true, false, false, false, false⟩
 
 /-- One turn of the name-rule loop (filter.py:518-520): `rule.matches_tag(tag) or (prefixed_name is not None and
     [rule.function is None and] rule.matches_string(prefixed_name))`, with the calls it makes. -/
@@ -276,11 +287,12 @@ def joinedValue : Option AttrVal → PStr
 def helperMatch (O : Oracle) (rules : List Rule) (vals : List (Option PStr)) : Bool :=
   rules.any (fun r => vals.any (fun x => r.matchesString O x))
 
-/-- `SoupStrainer._attribute_match` (filter.py:545-578), incl. the retry on the space-joined value. -/
-def attributeMatch (O : Oracle) (v : Option AttrVal) (rules : List Rule) : Bool :=
+/-- `SoupStrainer._attribute_match` (filter.py:545-578), incl. the retry on the space-joined value:
+    `je` (repair f) = the retry condition is `len(attr_values) != 1` instead of `> 1`. -/
+def attributeMatch (O : Oracle) (je : Bool) (v : Option AttrVal) (rules : List Rule) : Bool :=
   let vals := attrValues v
   helperMatch O rules vals ||
-    (decide (vals.length > 1) && helperMatch O rules [some (joinedValue v)])
+    ((if je then decide (vals.length ≠ 1) else decide (vals.length > 1)) && helperMatch O rules [some (joinedValue v)])
 
 def ofS' (s : String) : PStr := s.toList.map Char.toNat
 
@@ -304,12 +316,19 @@ structure Strainer where
   nameRules : List Rule
   attrFlat : List (PStr × Rule)
   stringRules : List Rule
+  /-- `matches_nothing` (repair d): some criterion was given that yields no rule at all -/
+  dead : Bool
   deriving Repr
+
+def Crit.isNone (c : Crit) : Bool := c = .atom .none
 
 def mkStrainer (q : Query) : Strainer :=
   { nameRules := makeRules q.name
     attrFlat := q.attrPairs.flatMap (fun p => (makeRules p.2).map (fun r => (p.1, r)))
-    stringRules := makeRules q.string }
+    stringRules := makeRules q.string
+    dead := (!q.name.isNone && (makeRules q.name).isEmpty)          -- `name is not None and not self.name_rules`
+      || q.attrPairs.any (fun p => (makeRules p.2).isEmpty)          -- `if not rules: self.matches_nothing = True`
+      || (!q.string.isNone && (makeRules q.string).isEmpty) }
 
 def Strainer.rulesFor (s : Strainer) (a : PStr) : List Rule := (s.attrFlat.filter (·.1 == a)).map (·.2)
 
@@ -331,18 +350,20 @@ def stringRulesOK (O : Oracle) (s : Strainer) (e : Elem) : Bool :=
 
 /-- `SoupStrainer.matches_tag` (filter.py:475-543) with the calls its name rules make. -/
 def matchesTag (O : Oracle) (v : Variant) (s : Strainer) (e : Elem) : Bool × List Call :=
-  if s.nameRules.isEmpty && s.attrFlat.isEmpty then (false, [])        -- :491
+  if v.deadCheck && s.dead then (false, [])                            -- repair d: `if self.matches_nothing`
+  else if s.nameRules.isEmpty && s.attrFlat.isEmpty then (false, [])   -- :491
   else if shortcutReject s e then (false, [])                          -- :497
   else
     let nm := if s.nameRules.isEmpty then (true, []) else nameRulesEval O v e s.nameRules
     if !nm.1 then (false, nm.2)                                        -- :524
     else
-      (s.attrFlat.all (fun p => attributeMatch O (getAttr e p.1) (s.rulesFor p.1))   -- :530-534
+      (s.attrFlat.all (fun p => attributeMatch O v.joinEmpty (getAttr e p.1) (s.rulesFor p.1))   -- :530-534
         && stringRulesOK O s e, nm.2)                                               -- :537-542
 
 /-- `SoupStrainer.match` (filter.py:650-668). -/
 def matchElem (O : Oracle) (v : Variant) (s : Strainer) (e : Elem) : Bool × List Call :=
   if e.isTag then matchesTag O v s e
+  else if v.deadCheck && s.dead then (false, [])
   else if s.nameRules.isEmpty && s.attrFlat.isEmpty then
     (s.stringRules.any (fun r => r.matchesString O e.str), [])
   else (false, [])
@@ -372,8 +393,6 @@ def filterLoop (m : Elem → Bool × List Call) (limit : Option Nat) : List Elem
         (y.1, x.2 ++ y.2)
     else filterLoop m limit rest n
 
-def Crit.isNone (c : Crit) : Bool := c = .atom .none
-
 /-- Python truth value of a criterion object (for `not attrs`). -/
 def Crit.truthy : Crit → Bool
   | .atom .none => false
@@ -388,6 +407,11 @@ def Crit.truthy : Crit → Bool
 def AttrsArg.truthy : AttrsArg → Bool
   | .dict d => !d.isEmpty
   | .sugar c => c.truthy
+
+/-- `isinstance(attrs, dict) and not attrs` -/
+def AttrsArg.isEmptyDict : AttrsArg → Bool
+  | .dict d => d.isEmpty
+  | .sugar _ => false
 
 def limitTruthy : Option Nat → Bool
   | none => false
@@ -409,7 +433,8 @@ def generalPath (O : Oracle) (v : Variant) (q : Query) (limit : Option Nat) (ax 
 
 /-- `PageElement._find_all` (element.py:1079-1143; with repair (a) when `v.noCritBranch`). -/
 def findAllImpl (O : Oracle) (v : Variant) (q : Query) (limit : Option Nat) (ax : List Elem) : List Elem × List Call :=
-  let basic := q.string.isNone && !q.attrs.truthy && q.kwargs.isEmpty
+  let noAttrs := if v.attrsDict then q.attrs.isEmptyDict else !q.attrs.truthy     -- repair e
+  let basic := q.string.isNone && noAttrs && q.kwargs.isEmpty
   if v.noCritBranch && basic && q.name.isNone then
     -- repaired: no criteria at all = every tag, up to the limit (`if limit and len(result) >= limit: break`)
     let tags := ax.filter (·.isTag)
@@ -501,17 +526,29 @@ def Crit.satName (O : Oracle) (c : Crit) (e : Elem) : Bool :=
                  | none => false)))
 
 /-- An attribute value satisfies a criterion: a missing attribute is `None`; a multi-valued attribute matches if
-    any single value or the space-joined value does. -/
+    any single value or the space-joined value does (a multi-valued attribute without values is the empty string). -/
 def Crit.satAttr (O : Oracle) (c : Crit) (v : Option AttrVal) : Bool :=
   (attrValues v).any (fun x => c.sat O x) ||
-    (decide ((attrValues v).length > 1) && c.sat O (some (joinedValue v)))
+    (decide ((attrValues v).length ≠ 1) && c.sat O (some (joinedValue v)))
 
 def Query.hasTagCriteria (q : Query) : Bool := !q.name.isNone || !q.attrPairs.isEmpty
 
 def Query.noCriteria (q : Query) : Bool := q.name.isNone && q.attrPairs.isEmpty && q.string.isNone
 
+def Atom.isNoneB : Atom → Bool
+  | .none => true
+  | _ => false
+
+/-- the criterion offers no alternative at all: an empty list, a list of nested lists and `None`s — "any of nothing" -/
+def Crit.noAlternative (c : Crit) : Bool := c.atoms.all Atom.isNoneB
+
+/-- some criterion of the query was given but offers no alternative: nothing can satisfy the query -/
+def Query.unsatisfiable (q : Query) : Bool :=
+  (!q.name.isNone && q.name.noAlternative) || q.attrPairs.any (fun p => p.2.noAlternative)
+    || (!q.string.isNone && q.string.noAlternative)
+
 /-- **The documented meaning of a query on one element.**
-    * no criteria at all: every tag;
+    * no criteria at all: every tag; a criterion that offers no alternative (an empty list): nothing;
     * a tag: it must satisfy the name criterion (if any), for every constrained attribute one of the criteria
       given for that attribute, and its `.string` the string criterion (if any); a query with only a string
       criterion finds strings, not tags;
@@ -519,6 +556,7 @@ def Query.noCriteria (q : Query) : Bool := q.name.isNone && q.attrPairs.isEmpty 
       (`ElementFilter.filter` never yields an empty string). -/
 def sat (O : Oracle) (q : Query) (e : Elem) : Bool :=
   if q.noCriteria then e.isTag
+  else if q.unsatisfiable then false
   else if e.isTag then
     q.hasTagCriteria
     && (q.name.isNone || q.name.satName O e)
